@@ -137,6 +137,7 @@ def run_one(tape, cfg):
     runs, digests = [], []
     problem = None
     fault_fired = 0
+    ropt, block_lt_line = None, False
     try:
         # ---------------- write
         wrun = sr.SimRun(tape, entry=("threaded", "async", "sync")[tape.draw(3, "wentry")], step_cap=100000)
@@ -223,7 +224,9 @@ def run_one(tape, cfg):
                         pkw["index_col"] = False
                     # reader options that must not change which rows come back
                     ropt = tape.weighted([(3, "default"), (1, "header0"), (2, "names_header0"),
-                                          (1, "usecols")], "ropt")
+                                          (1, "usecols"), (2, "skipfooter")], "ropt")
+                    if ropt == "skipfooter" and not single:
+                        ropt = "default"
                     first_text = whole if whole is not None else texts[names[0]]
                     filecols = list(pd.read_csv(io.StringIO(first_text), nrows=0, **pkw).columns)
                     back = None
@@ -237,6 +240,18 @@ def run_one(tape, cfg):
                     elif ropt == "usecols":
                         keep = [c for c in filecols if c in ("i", "f", "s") and tape.chance(2, 3, "keep")]
                         pkw["usecols"] = keep or ["i"]
+                    elif ropt == "skipfooter":
+                        # a trailer line after the data, dropped by skipfooter=1 (python engine): only
+                        # the task of the LAST block may apply it, whatever order the blocks run in
+                        # (the trailer repeats the first data row, so that dask's dtype inference from
+                        # the head sample, which may cover the whole small file, is not disturbed)
+                        whole = whole + df.iloc[:1].to_csv(index=index, header=False)
+                        simfs.put(rpaths, whole.encode())
+                        pkw["skipfooter"] = 1
+                        pkw["engine"] = "python"
+                        out.probe("read_skipfooter")
+                        block_lt_line = blocksize is not None and any(
+                            len(ln.encode()) + 1 > blocksize for ln in whole.split("\n"))
                     rkw.update(pkw)
                     try:
                         with rrun:
@@ -305,5 +320,6 @@ def run_one(tape, cfg):
     if problem:
         extra = {"exc_type": problem[2]} if len(problem) > 2 else {}
         out.violate(problem[0], f"{problem[1]} ({ {k: v for k, v in wl.items() if k != 'frame'} })",
-                    single_file=single, blocksize_none=blocksize is None, **extra)
+                    single_file=single, blocksize_none=blocksize is None, reader_option=ropt,
+                    block_smaller_than_a_line=block_lt_line, **extra)
     return out
